@@ -401,6 +401,52 @@ func runC02(c *Ctx) {
 		} else {
 			c.sites += nIgnore
 			c.Check("consensus/ucon.NewVoteDB$1#stale-record-test", restore.Pos(), bad == 0 && nIgnore > 0, ifelse(bad == 0, fmt.Sprintf("all %d paths that ignore a verified record establish that its round is not newer than the restored one", nIgnore), fmt.Sprintf("%d of %d paths ignore a verified record without comparing rounds in its favour: a record of a NEWER round (with a lower round index) is dropped, the restored context stays behind, the next context update wipes the marks and the validator signs that kind again", bad, nIgnore)))
+			// a record of the restored (round, index) COUNTS: its kind's mark goes up by one (next-index has two records)
+			nSame, badSame := 0, 0
+			enumPaths(restore, 5000, func(pr PathResult) {
+				atoms := atomsOf(pr.Facts)
+				sameRound, sameIndex := false, false
+				for _, a := range atoms {
+					if a.Kind != "eq" || !a.Truth {
+						continue
+					}
+					if isRoundCmp(a.X) {
+						if n, isC := constInt(a.Y); isC && n == 0 {
+							sameRound = true
+						}
+					}
+					fx, _ := loadedField(stripConv(a.X))
+					fy, _ := loadedField(stripConv(a.Y))
+					if fx != nil && fy != nil && ((fx.Name() == "roundIndex" && fy.Name() == "RoundIndex") || (fy.Name() == "roundIndex" && fx.Name() == "RoundIndex")) {
+						sameIndex = true
+					}
+				}
+				if !sameRound || !sameIndex {
+					return
+				}
+				for _, fw := range fieldWrites(restore) {
+					if fw.Field != markF || fw.Kind != "mapupdate" || !pr.Blocks[fw.Instr.Block()] {
+						continue
+					}
+					nSame++
+					mu := fw.Instr.(*ssa.MapUpdate)
+					inc := false
+					if bo, ok := stripConv(mu.Value).(*ssa.BinOp); ok && bo.Op == token.ADD {
+						if n, isC := constInt(bo.Y); isC && n == 1 {
+							if lk, ok := stripConv(bo.X).(*ssa.Lookup); ok {
+								if lf, _ := loadedField(stripConv(lk.X)); lf == markF {
+									inc = true
+								}
+							}
+						}
+					}
+					if !inc {
+						badSame++
+					}
+				}
+			})
+			c.sites += nSame
+			c.Check("consensus/ucon.NewVoteDB$1#same-context-record-counts", restore.Pos(), nSame > 0 && badSame == 0, ifelse(nSame > 0 && badSame == 0, fmt.Sprintf("on all %d paths for a record of the restored round and index the kind's mark is raised by one", nSame), fmt.Sprintf("on %d of %d paths a record of the restored round and index sets the mark instead of raising it: the two next-index records restore to a count of one, the already-voted test (== 2) fails after a restart and the validator signs a third next-index vote", badSame, nSame)))
 		}
 	}
 
